@@ -25,9 +25,15 @@ HOST_ONLY_OPS = {
 }
 
 # C07.R5 reviewed table: (function qpath regex, type-test callee regex) -> reason
-UNWRAP_TABLE = [
-    # filled from the probe; each entry read and benign
-]
+UNWRAP_TABLE = {
+    ("partial", "ValueTyped::new"): "keys of a **kwargs dict are strings by construction of the call",
+    ("list.remove", "ListRef::from_value"): "`this` of a list method is a list (check_this in the generated wrapper)",
+    ("EnumTypeGen as StarlarkValue::dir_attr", "Value::unpack_str"): "enum element names were validated as strings when the "
+                                                                     "enum type was created",
+    ("EnumTypeGen as StarlarkValue::export_as", "Value::unpack_str"): "same: element names are strings by construction",
+    ("RecordTypeGen as StarlarkValue::invoke", "UnpackValue::unpack_value_err"): "field values come from this record "
+                                                                                  "type's own parameter spec",
+}
 
 
 def r1_pairing(ctx, F):
@@ -337,6 +343,46 @@ def r7_negation(ctx, F):
     ctx.floor("C07.R7", "overflow-checked negations inspected", n, 5, inventory=True)
 
 
+TYPETEST = re.compile(r"(downcast_ref|unpack_str$|unpack_i32$|unpack_bool$|unpack_value(_opt|_err|_impl)?$|unpack_inline_int|"
+                      r"::from_value$|unpack_int|UnpackValue|ValueTyped::<.*>::new$|unpack_frozen$|unpack_starlark_str|"
+                      r"unpack_num|unpack_named_param|unpack_param|unpack_box_str|unpack_none)")
+
+
+def r5_unwrap(ctx, F):
+    """in natives and StarlarkValue impls no unwrap/expect consumes the result of a type test on a value unless reviewed"""
+    from kern import natives
+    nat = {}
+    for n in natives(F):
+        if n.impl is not None:
+            ty = re.search(r"(\w+?)_METHODS_STATICS", n.builder.qpath)
+            nat[n.impl.uid] = ("%s.%s" % (ty.group(1).lower(), n.name)) if ty else n.name
+    pc = re.compile(r"(Try>::branch$|::ok$|::map$|::map_err$|as_ref$|as_mut$|FromResidual|::copied$|::cloned$)")
+    n_un = 0
+    for f in F.fns.values():
+        if f.crate != "starlark":
+            continue
+        t = top_fn(F, f)
+        is_nat = "__starlark_invoke_impl" in t.qpath or re.search(r"as values::traits::StarlarkValue<'v>>::", t.qpath)
+        if not is_nat:
+            continue
+        for c in f.calls:
+            if c.bb in f.cleanup or not re.search(r"(Option|Result)::<.*>::(unwrap|expect|unwrap_unchecked)$", c.name):
+                continue
+            n_un += 1
+            tt = sorted({short_fn(o[1].name) for o in origins(f, c.args[0], pass_calls=pc)
+                         if o[0] == "call" and TYPETEST.search(o[1].name)})
+            if not tt:
+                continue
+            where = nat.get(t.uid) or short_fn(t.qpath)
+            for x in tt:
+                reason = UNWRAP_TABLE.get((where, x))
+                ctx.check(reason is not None, "C07.R5", "unwrap-of-type-test:%s:%s" % (where, x),
+                          "reviewed: " + (reason or ""),
+                          "`%s` unwraps the result of the type test `%s` on a Starlark value: for a value of another "
+                          "type the evaluation panics instead of returning an error" % (where, x), fn=f, line=c.line)
+    ctx.floor("C07.R5", "unwrap/expect calls in natives and StarlarkValue impls", n_un, 24, inventory=True)
+
+
 def r6_writer(ctx, F):
     for name in ("alloc_slot", "alloc_slots", "alloc_slots_for_exprs"):
         f = F.one(r"starlark::eval::bc::writer::BcWriter::<'f>::%s$" % name)
@@ -374,5 +420,6 @@ def run(ctx):
     r3_errors(ctx, F)
     r4_borrows(ctx, F)
     r4b_live_borrow(ctx, F)
+    r5_unwrap(ctx, F)
     r6_writer(ctx, F)
     r7_negation(ctx, F)
